@@ -1,6 +1,7 @@
 """C01 - the parse tree mirrors the source (Engines G, F)."""
 from .. import rules_grammar as RG
 from .. import rules_tree as RT
+from .. import rules_alias as RA
 
 ID = "C01"
 EXPLANATION = (
@@ -15,7 +16,7 @@ EXPLANATION = (
     "the dialect token to the C++ spelling emitted by to_cpp (F3). Both scopes accept the same declaration "
     "kinds (G4); the seven class-member kinds are routed grammar -> Members list -> Class parameter -> "
     "attribute by type (G5); the parser never re-orders results (G6); first-match alternations cannot "
-    "shadow a longer alternative (G7). Which alternative pyparsing's longest-match Or picks for a truly "
+    "shadow a longer alternative (G7); every in-place modification inside the parser package is applied to a value created on the spot - an accessor whose result callers extend (namespaces(), full_namespaces()) must return a new list on every call, otherwise repeated queries corrupt the stored namespace path (G8); a parse action that returns text instead of a node must return it unchanged on elements whose text is information (F1). Which alternative pyparsing's longest-match Or picks for a truly "
     "ambiguous input is a language question and is not decided.")
 ASSUMPTIONS = [
     "pyparsing results-name semantics as documented: expr(name) copies the element and shares the action; "
@@ -23,6 +24,14 @@ ASSUMPTIONS = [
     "an unknown results name reads as '' (the repo's ParseResults.__getattr__ patch, modelled)",
     "exemptions (one named symbol each): ENUM alternative; ReturnType.optional_std",
 ]
+
+
+G8_EXEMPT = {
+    "instantiate_namespace": "documented in/out parameter: the namespace's content is replaced by its "
+                             "instantiated content (docstring of instantiate_namespace)",
+    "MatlabWrapper._expand_default_arguments": "works on copies it makes itself (method_copy/args_copy); the "
+                                               "shape of that algorithm is decided by C06/M4",
+}
 
 
 def run(ctx, rep):
@@ -38,4 +47,6 @@ def run(ctx, rep):
     rep.run(RT.rule_member_exhaustive, ctx, rep, "G5", min_kinds=7)
     rep.run(RT.rule_no_reorder, ctx, rep, "G6")
     rep.run(RT.rule_ordered_choice, ctx, rep, "G7")
+    # G8: tree accessors never hand out, and tree code never modifies, shared mutable state
+    rep.run(RA.rule_mutate_only_fresh, ctx, rep, "G8", "gtwrap/", G8_EXEMPT, min_sites=60)
     rep.require_min("G7", 2)
